@@ -8,6 +8,9 @@ Driver entries of the trace model (C20):
 * `c20.frames {ignoreSet, debug, frames:[{ignored}]}` - which frames survive the ignore filter
 * `c20.render {keywords, builtins, simple, utf8, verbosity, ignoreSet, name, msg, sources, frames}` -
   the strings handed to the formatter (the formatter itself is pastel: applied by the harness)
+* `c20.wf {sources, frames, ignoreSet, debug}` - the deciders of the hypotheses of `render_fails_iff` on the real
+  frames (`frames_ok`) and the collections the port of crashtest's `compact` makes of the surviving frames
+(`c20.split` also answers `contract`: the status of each stream w.r.t. the hypothesis of `lines_verbatim`)
 
 A token stream is `{lines:[text…], toks:[[kind, text, srow, scol, erow, ecol, lineIndex]…]}`
 (the `line` attribute of the tokens is interned in `lines`); a failed tokenization is
@@ -101,7 +104,9 @@ def handle (m : String) (j : Json) : Option (R Json) :=
         | .error e => jErr e
         | .ok toks =>
           let hl := splitToLines env toks
-          jOk (Json.mkObj [("lines", jStrs (hl.map renderHL)), ("plain", jStrs (hl.map plainHL))])
+          -- `contract`: does the stream satisfy the hypothesis `WF` of `Props.C20.lines_verbatim`?
+          jOk (Json.mkObj [("lines", jStrs (hl.map renderHL)), ("plain", jStrs (hl.map plainHL)),
+                           ("contract", .str (contractStatus env toks))])
       return Json.mkObj [("results", jList one srcs)]
   | "c20.frames" => some do
       let ig ← fBool j "ignoreSet"
@@ -118,6 +123,17 @@ def handle (m : String) (j : Json) : Option (R Json) :=
       let r := renderMarkup env compact (← fBool j "simple") (← fBool j "utf8") (← fNat j "verbosity")
         (← fBool j "ignoreSet") (← fChars j "name") (← fChars j "msg") frames
       return jExcept jStrs r
+  | "c20.wf" => some do
+      -- the hypotheses of `Props.C20.render_fails_iff` on the real frames: the tokenizer's outcomes
+      -- (`frames_ok`), and the collections of the port of crashtest's `compact` on the frames that
+      -- survive the ignore filter (compared with the real engine's; `port_compact_sound`)
+      let sources ← (← fArr j "sources").mapM streamOf
+      let frames ← (← fArr j "frames").toList.mapM (frameOf sources)
+      let stack := filterFrames (← fBool j "ignoreSet") (← fBool j "debug") frames
+      let jFrame (f : Frame) : Json := Json.arr #[jStr f.file, jNat f.lineno, jStr f.func]
+      return Json.mkObj [("frames_ok", .bool (framesOkB frames)),
+                         ("compact", jList (fun (c : Coll) => Json.arr #[jList jFrame c.frames, jNat c.count])
+                                       (compact stack))]
   | _ => none
 
 end Clikit.Drv.C20
